@@ -8,6 +8,7 @@ clock only advances when no callback is ready).
 from __future__ import annotations
 
 import asyncio
+import signal
 from datetime import datetime, timedelta, timezone
 from typing import Any, Awaitable, Callable
 
@@ -38,7 +39,31 @@ async def advance(seconds: float) -> None:
     await asyncio.sleep(seconds)
 
 
-def run(coro_fn: Callable[[], Awaitable[Any]], t0: datetime = T0) -> Any:
+class Livelock(KeyboardInterrupt):
+    """The case did not finish within the wall-clock limit although time is virtual.
+
+    On a virtual clock a case takes milliseconds; hitting the limit means some task spins
+    without ever yielding to the loop.  Derived from KeyboardInterrupt so that asyncio lets
+    it propagate out of the running task and out of ``run_until_complete``.
+    """
+
+
+def _on_alarm(signum: int, frame: Any) -> None:
+    del signum, frame
+    raise Livelock("wall-clock limit hit inside a virtual-time case")
+
+
+def run(coro_fn: Callable[[], Awaitable[Any]], t0: datetime = T0, wall_limit: float = 120.0) -> Any:
+    old_handler = signal.signal(signal.SIGALRM, _on_alarm)
+    signal.setitimer(signal.ITIMER_REAL, wall_limit)
+    try:
+        return _run(coro_fn, t0)
+    finally:
+        signal.setitimer(signal.ITIMER_REAL, 0.0)
+        signal.signal(signal.SIGALRM, old_handler)
+
+
+def _run(coro_fn: Callable[[], Awaitable[Any]], t0: datetime) -> Any:
     loop = async_solipsism.EventLoop()
     asyncio.set_event_loop(loop)
     # exceptions in orphaned tasks are judged by the oracles, not by log output
